@@ -80,7 +80,7 @@ def run(ctx):
     thms = ctx.build_and_audit(["NutsProofs.Props.C18"])
     required = ["did_url_roundtrip", "fetch_origin_bound", "redirects_stay_on_origin", "strict_client_https_only",
                 "redirect_witness", "id_bound_web", "id_bound", "jwk_key_pure", "local_first_no_network",
-                "deactivated_needs_flag", "fact_sets", "fact_content_types", "fact_redirect_policy", "fact_router",
+                "deactivated_needs_flag", "local_store_fault_no_network", "fact_local_resolver_errors", "fact_sets", "fact_content_types", "fact_redirect_policy", "fact_router",
                 "fact_deactivation", "fact_resolve_checks_document_id", "fact_strict_do"]
     for r in required:
         if not any(t.endswith("Props." + r) for t in thms):
@@ -221,7 +221,9 @@ def run(ctx):
             didb = b"did:" + meth + b":" + bytes.fromhex(op.get("id", ""))
             if meth in (b"jwk", b"key") and n:
                 violation("network-for-" + meth.decode(), f"{n} outbound request(s) while resolving {didb!r}", node_line + "\n" + opl)
-            if op.get("local") in ("active", "deactivated") and n:
+            if op.get("fault") and meth == b"web" and (n or out.startswith("ok")):
+                violation("network-after-storage-fault", f"local store failed while resolving {didb!r} (managed: {op.get('local')}), yet {n} outbound request(s) were made / result {out[:40]}", node_line + "\n" + opl)
+            elif op.get("local") in ("active", "deactivated") and n:
                 violation("network-for-local-did", f"{n} outbound request(s) while resolving locally managed {didb!r}", node_line + "\n" + opl)
             if op.get("local") == "deactivated" and not op.get("allow") and out.startswith("ok"):
                 violation("deactivated-resolved", f"deactivated {didb!r} resolved without AllowDeactivated", node_line + "\n" + opl)
